@@ -21,9 +21,9 @@ BOUNDS = {
 ASSUMPTIONS = [
     "stored obs/fcst values are real numbers or NaN",
     "log/exp (rmsf) are uninterpreted monotone functions: the rmsf definition is compared modulo their exact values",
-    "rankcorr/kendallcorr: scipy.stats is a recording stub; only guards and argument flow are decided",
+    "rankcorr/kendallcorr: scipy.stats.spearmanr / kendalltau are library models (average ranks / tau-b), validated against SciPy on a corpus",
 ]
-STUBS = ["scipy.stats.spearmanr / kendalltau (recording stub, harness rank_guards only)"]
+STUBS = []
 
 AGG_METRICS = ["Mae", "Bias", "Diff", "Ratio", "Rmse", "Rmsf", "Cmae"]
 PLAIN_METRICS = ["Ef", "StdError", "ObsStdDev", "FcstStdDev", "Nsec", "Nnsec", "Kge", "Alphaindex", "Leps",
@@ -253,50 +253,30 @@ def h_within_cond(N):
     return fn
 
 
-class _RankStub(object):
-    """Stands in for scipy inside verif.metric: records the arguments."""
-    def __init__(self, S):
-        self.S = S
-        self.calls = []
-        self.stats = self
-
-    def spearmanr(self, a, b):
-        self.calls.append(("spearmanr", a, b))
-        return [self.S.real("rho"), None]
-
-    def kendalltau(self, a, b):
-        self.calls.append(("kendalltau", a, b))
-        return [self.S.real("tau"), None]
-
-
-def h_rank_guards(N):
+def h_rank(N):
+    """rankcorr = Spearman's rho (Pearson correlation of average ranks),
+    kendallcorr = Kendall's tau-b, on the valid pairs.  SciPy is a validated
+    library model under the engine (symx.arrays.m_spearmanr / m_kendalltau); the
+    oracle is written independently in harness/ref.py."""
     def fn(S):
-        if not S.symbolic:
-            return   # scipy itself is outside the model; nothing to replay
         metric = load.modules["verif.metric"]
         which = S.choose("metric", 2)
         n = S.choose("n", N + 1)
-        stub = _RankStub(S)
-        load.rebind_global(metric, "scipy", stub)
         m = metric.RankCorr() if which == 0 else metric.KendallCorr()
-        fname = "spearmanr" if which == 0 else "kendalltau"
+        name = "rankcorr" if which == 0 else "kendallcorr"
         obs = S.array("obs", n, nan=True)
         fcst = S.array("fcst", n, nan=True)
         got = m.compute_from_obs_fcst(obs, fcst)
+        S.observe(name, got)
         o, f = valid_pairs(S, obs, fcst)
         if len(o) <= 1:
-            S.prove("rank.%s.too-few-pairs-is-nan" % fname, S.isnan(got) and not stub.calls)
+            S.prove("%s.too-few-pairs-is-nan" % name, S.isnan(got))
             return
-        if which == 1:
-            vf = ref.r_var(S, f)
-            if bool(vf == 0):
-                S.prove("kendall.constant-forecast-is-nan", S.isnan(got) and not stub.calls)
-                return
-        S.prove("rank.%s.called-once-with-valid-pairs-in-order" % fname,
-                len(stub.calls) == 1 and stub.calls[0][0] == fname and
-                bool(S.all(S.same(x, y) for x, y in zip(S.elements(stub.calls[0][1]), o))) and
-                bool(S.all(S.same(x, y) for x, y in zip(S.elements(stub.calls[0][2]), f))))
-        S.prove("rank.%s.returns-first-element" % fname, S.same(got, stub.calls[0] and S.real("rho" if which == 0 else "tau")))
+        want, defined = (ref.r_spearman if which == 0 else ref.r_kendall_b)(S, o, f)
+        # the ranks are concrete on each path, so both sides are computed from doubles: compare with S.close
+        S.prove("definition=%s" % name, S.implies(defined, S.close(got, want)), twin=S.implies(defined, S.close(got, want + 1)))
+        S.prove("undefined-not-a-number=%s" % name, S.implies(S.not_(defined), S.not_(S.isfinite(got))))
+        S.prove("perfect-forecast=%s" % name, S.implies(S.and_(defined, S.all(S.same(a, b) for a, b in zip(o, f))), S.close(got, 1.0)))
     return fn
 
 
@@ -307,5 +287,5 @@ def harnesses(tier):
         Harness("plain_metrics", h_plain_metrics(4 if thorough else 3), "13 metrics without aggregator"),
         Harness("perfect", h_perfect(4 if thorough else 3), "forecast == observation attains perfect_score"),
         Harness("within_cond", h_within_cond(3 if thorough else 2), "Within, Conditional, XConditional, Count"),
-        Harness("rank_guards", h_rank_guards(3 if thorough else 2), "RankCorr/KendallCorr guards and argument flow", witness=False),
+        Harness("rank", h_rank(3), "RankCorr / KendallCorr vs Spearman's rho / Kendall's tau-b"),
     ]
